@@ -25,6 +25,12 @@ type tokItem struct {
 // scanAll returns the token sequence (semicolons and commas dropped) and the
 // comments of src; ok=false if the scanner reports an error.
 func scanAll(src string) (toks []tokItem, comments []tokItem, ok bool) {
+	return scanAllOpt(src, false)
+}
+
+// scanAllOpt with keepSep keeps commas and explicit semicolons (an unmodified round trip keeps
+// the line layout, so go/printer's trailing commas must come out the same)
+func scanAllOpt(src string, keepSep bool) (toks []tokItem, comments []tokItem, ok bool) {
 	fset := token.NewFileSet()
 	file := fset.AddFile("", fset.Base(), len(src))
 	var s scanner.Scanner
@@ -39,7 +45,7 @@ func scanAll(src string) (toks []tokItem, comments []tokItem, ok bool) {
 		switch {
 		case tok == token.COMMENT:
 			comments = append(comments, it)
-		case tok == token.SEMICOLON, tok == token.COMMA:
+		case tok == token.SEMICOLON && (!keepSep || lit == "\n"), tok == token.COMMA && !keepSep:
 			// go/printer adds and removes separators with the line layout (trailing commas)
 		default:
 			if !tok.IsLiteral() && tok != token.IDENT {
@@ -49,6 +55,31 @@ func scanAll(src string) (toks []tokItem, comments []tokItem, ok bool) {
 		}
 	}
 	return
+}
+
+// scanSeq: tokens (separators dropped) and comments in one sequence
+func scanSeq(src string) []string {
+	fset := token.NewFileSet()
+	file := fset.AddFile("", fset.Base(), len(src))
+	var s scanner.Scanner
+	s.Init(file, []byte(src), func(pos token.Position, msg string) {}, scanner.ScanComments)
+	var out []string
+	for {
+		_, tok, lit := s.Scan()
+		if tok == token.EOF {
+			break
+		}
+		switch {
+		case tok == token.COMMENT:
+			out = append(out, "C:"+strings.Join(strings.Fields(strings.ReplaceAll(lit, "\r", "")), " "))
+		case tok == token.SEMICOLON, tok == token.COMMA:
+		case tok.IsLiteral() || tok == token.IDENT:
+			out = append(out, tok.String()+":"+lit)
+		default:
+			out = append(out, tok.String())
+		}
+	}
+	return out
 }
 
 func tokString(ts []tokItem) string {
